@@ -1195,7 +1195,26 @@ def materialize(files, tag):
     return d
 
 
+MAX_REPORTS = 12
+
+
+def limit_reports(chk):
+    """At most MAX_REPORTS replay files per run; the rest is only counted."""
+    if getattr(chk, "_c18_limited", False):
+        return
+    orig = chk.violation
+
+    def limited(kind, detail, key=None, found_input=True):
+        if len(chk.violations) >= MAX_REPORTS and not (key is not None and chk.known_finding(key)):
+            chk.extra["violations_not_written"] = chk.extra.get("violations_not_written", 0) + 1
+            return None
+        return orig(kind, detail, key=key, found_input=found_input)
+    chk.violation = limited
+    chk._c18_limited = True
+
+
 def explore(chk, tier, model_ok, schema, search_mode=False):
+    limit_reports(chk)
     run = Run(chk, schema, model_ok)
     quick = tier == "quick"
     phase = {}
@@ -1414,7 +1433,10 @@ def run(tier):
             raise common.InfraError("model driver was built from another schema: %s" % ans)
         explore(chk, tier, True, schema)
     replay_known(chk)
-    return chk.finish()
+    # With broken Lean obligations nothing is discharged: what this run did is the model-free
+    # search, i.e. exploration-level evidence (a `proof`-level record with discharged=0 does
+    # not validate and would turn exit 1 into exit 2).
+    return chk.finish(level="proof" if model_ok else "exploration")
 
 
 def replay_known(chk):
